@@ -297,6 +297,10 @@ def run(chk):
     chk.add_tlc(res, "GlyphSet_small (exhaustive)")
     if not res.ok:
         chk.tlc_violation(res, "GlyphSet")
+    neg = common.run_tlc("GlyphSet", "GlyphSet_blanktwice.cfg", timeout=3000, coverage=False)
+    chk.add_tlc(neg, "GlyphSet_blanktwice (a blank glyph listed once per occurrence: expected to violate GidIsFinal)")
+    if neg.ok:
+        raise MachineryError("GlyphSet_blanktwice.cfg holds: GidIsFinal is vacuous")
     recs = res.records
     if len(recs) < 1000:
         raise MachineryError("too few GlyphSet scenarios")
